@@ -810,6 +810,12 @@ impl Sim {
             self.verdict = Some(Verdict::Spin(format!("{} consecutive parent calls without moving a byte, closing a stream or blocking", self.idle_streak)));
             return Err(E_SPIN);
         }
+        if self.cfg.script.iter().all(|o| !matches!(o, COp::Flood { .. })) && self.wrote[1].len() + self.wrote[2].len() > (16 << 20) + 16 * self.input_len {
+            // a child that produces output only until its input has arrived (FloodUntilInput)
+            // stops within a few MiB when the input is being delivered
+            self.verdict = Some(Verdict::Spin(format!("the exchange does not come to an end: the child has produced {} bytes while waiting for its input, of which {} of {} bytes were delivered", self.wrote[1].len() + self.wrote[2].len(), self.input_accepted.len(), self.input_len)));
+            return Err(E_SPIN);
+        }
         if self.ncalls + self.clock_reads / 4 > self.budget() {
             self.verdict = Some(Verdict::Spin(format!("{} parent calls for {} bytes moved", self.ncalls, self.budget() / 8)));
             return Err(E_SPIN);
